@@ -212,7 +212,7 @@ func ipNum(ip net.IP) uint64 {
 	for _, b := range ip {
 		h = h*131 + uint64(b)
 	}
-	return h & (1<<52 - 1) | 1<<40
+	return h&(1<<52-1) | 1<<40
 }
 
 // ---------- script generation ----------
